@@ -14,11 +14,12 @@ import (
 
 // jgen builds a random document in the driver's prefix syntax and collects the 'E'-format float texts.
 type jgen struct {
-	r      *RNG
-	f64e   []string
-	maxFan int
-	size   int // rough byte size, to decide when a container must use the large format
-	budget int // stop growing beyond this many bytes
+	r        *RNG
+	f64e     []string
+	maxFan   int
+	size     int  // rough byte size, to decide when a container must use the large format
+	budget   int  // stop growing beyond this many bytes
+	noDouble bool // no DOUBLE scalars (their text needs the f64e side table)
 }
 
 func (g *jgen) str(n int) string {
@@ -59,6 +60,9 @@ func (g *jgen) scalar() string {
 		}
 		return fmt.Sprintf("u64:%d", v)
 	case 7:
+		if g.noDouble {
+			return fmt.Sprintf("i32:%d", int32(r.U64()))
+		}
 		bits := r.U64()
 		for math.IsNaN(math.Float64frombits(bits)) || math.IsInf(math.Float64frombits(bits), 0) {
 			bits = r.U64()
@@ -185,7 +189,7 @@ func genC14(r *RNG, tier string) []Case {
 		d := g.doc(depth)
 		class := "scalar"
 		if strings.HasPrefix(d, "o") || strings.HasPrefix(d, "a") {
-			class = "container-depth" + strconv.Itoa(strings.Count(d, "(") - strings.Count(strings.ReplaceAll(d, "((", "("), "(") + 1)
+			class = "container-depth" + strconv.Itoa(strings.Count(d, "(")-strings.Count(strings.ReplaceAll(d, "((", "("), "(")+1)
 			class = "container"
 			if strings.Contains(d, "o1(") || strings.Contains(d, "a1(") {
 				class = "container-large"
